@@ -26,3 +26,23 @@ Print Assumptions C20_owner_drops.
 Theorem C20_unrepaired_nonce_refuted : dirty_frees [] (lives 0 old_nonce_buffers) = [0].
 Proof. exact old_nonce_refuted. Qed.
 Print Assumptions C20_unrepaired_nonce_refuted.
+
+(** the same discipline under EARLY RETURNS (Model/HeapExit.v): the path may stop after any number of steps
+    (error return, unwinding) and everything still alive is dropped; if sensitive data is only ever written
+    into buffers that already sit inside a wiping wrapper, no such stop frees sensitive data *)
+From BP Require Import Model.HeapExit Proofs.HeapExitP.
+Theorem C20_early_exit_clean : forall prog, disciplined_prog prog [] = true -> forall n, dirty [] (run_until n prog) = [].
+Proof. exact early_exit_clean. Qed.
+Print Assumptions C20_early_exit_clean.
+
+(** the prover's path (witness bytes, bit vectors, alpha, per-round d_l / d_r, d, eta), any number of
+    commitments and rounds, stopped anywhere *)
+Theorem C20_prover_early_exit_clean : forall m k n, dirty [] (run_until n (prover_program m k)) = [].
+Proof. exact prover_early_exit_clean. Qed.
+Print Assumptions C20_prover_early_exit_clean.
+
+(** wrapping the bit vectors only after the decomposition loop (seeded change C20c) is refuted: stopping
+    inside the loop frees buffer 1 dirty — although complete runs are clean *)
+Theorem C20_late_wrap_refuted : forall m, dirty [] (run_until 3 (late_wrap_program (S m))) = [1].
+Proof. exact late_wrap_refuted. Qed.
+Print Assumptions C20_late_wrap_refuted.
